@@ -878,8 +878,10 @@ Examples:
     >>> print(replace_variables(equation,vars))
     $4 = ma$1($2,$1) + $1
     ''' #FIXME: don't parse if __name__ in builtins, globals, or locals?
-    for i in indices: #FIXME: or better, use 're' pattern matching
-        constraints = constraints.replace(variables[i], marker + str(i))
+    import re # match whole names only (not 'x' in 'max', or 'e' in '1e+20')
+    for i in indices:
+        name = r'(?<![A-Za-z0-9_])(?<![0-9]\.)' + re.escape(variables[i]) + r'(?![A-Za-z0-9_])'
+        constraints = re.sub(name, lambda m: marker + str(i), constraints)
     return constraints.replace(marker, markers)
 
 
